@@ -82,6 +82,30 @@ func c04WireAlphabet() []c04Ev {
 
 type c04WFail struct{ key, desc string }
 
+// c04AppStream is the application's read API, common to ClientStream and ServerStream.
+type c04AppStream interface {
+	Read(n int) (mem.BufferSlice, error)
+	ReadMessageHeader(header []byte) error
+}
+
+// c04PadAlphabet is the menu of the padding-accounting scenarios (run against
+// the client AND the server transport): PADDED DATA frames with pad length
+// {0, 1, 255} x payload {0, 1, 16000}, unpadded DATA, and application reads.
+func c04PadAlphabet() []c04Ev {
+	var evs []c04Ev
+	for _, pad := range []int{0, 1, 255} {
+		for _, n := range []int{0, 1, 16000} {
+			evs = append(evs, c04Ev{name: fmt.Sprintf("dataA(%d,pad%d)", n, pad), kind: "data", s: 0, n: n, pad: pad})
+		}
+	}
+	evs = append(evs, c04Ev{name: "dataA(1)", kind: "data", s: 0, n: 1, pad: -1})
+	evs = append(evs, c04Ev{name: "readA(1)", kind: "read", s: 0, n: 1})
+	evs = append(evs, c04Ev{name: "hdrA(5)", kind: "hdr", s: 0, n: 5})
+	evs = append(evs, c04Ev{name: "readA(16000)", kind: "read", s: 0, n: 16000})
+	evs = append(evs, c04Ev{name: fmt.Sprintf("readA(%d)", c04WL), kind: "read", s: 0, n: c04WL})
+	return evs
+}
+
 type c04WireRes struct {
 	skipAt  int // index of the first inapplicable event, -1 if none
 	fails   []c04WFail
@@ -107,7 +131,8 @@ type c04ReadOp struct {
 // large arrivals raise the window. Mode "bdp-quota" additionally advertises
 // MAX_CONCURRENT_STREAMS=1 and opens only stream A during set-up.
 func c04WireRun(t *testing.T, mode string, evs []c04Ev) (res c04WireRes) {
-	static, quota := mode == "static", mode == "bdp-quota"
+	server := strings.HasPrefix(mode, "server-")
+	static, quota := strings.HasSuffix(mode, "static"), mode == "bdp-quota"
 	res.skipAt = -1
 	res.obs = map[string]bool{}
 	synctest.Test(t, func(t *testing.T) {
@@ -117,23 +142,56 @@ func c04WireRun(t *testing.T, mode string, evs []c04Ev) (res c04WireRes) {
 			}
 		}()
 		cconn, sconn := wire.Pipe()
-		peer := wire.NewServerPeer(sconn)
-		peer.AutoAckSettings = true
-		if quota {
-			peer.WriteSettings(http2.Setting{ID: http2.SettingMaxConcurrentStreams, Val: 1})
-		} else {
-			peer.WriteSettings()
-		}
 		ctx, cancel := context.WithCancel(context.Background())
 		defer cancel()
-		dial := func(context.Context, string) (net.Conn, error) { return cconn, nil }
-		ct, err := NewHTTP2Client(ctx, ctx, resolver.Address{Addr: "verif"}, ConnectOptions{Dialer: dial, BufferPool: mem.DefaultBufferPool(), StaticWindowSize: static}, func(GoAwayInfo) {})
-		if err != nil {
-			res.engine = "NewHTTP2Client: " + err.Error()
-			peer.Close()
-			return
+		// the transport under test (receiver) and the scripted raw peer (sender)
+		var (
+			peer    *wire.Peer
+			tr      *http2Client // client side only
+			trfc    *trInFlow
+			closeTr func()
+			gs      [2]*Stream       // the transport-level stream (flow-control state, id)
+			as      [2]c04AppStream  // the application's read API
+			srvMu   sync.Mutex
+			srvStrs []*ServerStream
+		)
+		if server {
+			peer = wire.NewClientPeer(cconn)
+			peer.AutoAckSettings = true
+			peer.WriteSettings()
+			st, err := NewServerTransport(sconn, &ServerConfig{BufferPool: mem.DefaultBufferPool(), MaxStreams: 100, StaticWindowSize: static})
+			if err != nil {
+				res.engine = "NewServerTransport: " + err.Error()
+				peer.Close()
+				return
+			}
+			ht := st.(*http2Server)
+			trfc = ht.fc
+			closeTr = func() { ht.Close(errors.New("verif: history finished")) }
+			go ht.HandleStreams(ctx, func(s *ServerStream) {
+				srvMu.Lock()
+				srvStrs = append(srvStrs, s)
+				srvMu.Unlock()
+			})
+		} else {
+			peer = wire.NewServerPeer(sconn)
+			peer.AutoAckSettings = true
+			if quota {
+				peer.WriteSettings(http2.Setting{ID: http2.SettingMaxConcurrentStreams, Val: 1})
+			} else {
+				peer.WriteSettings()
+			}
+			dial := func(context.Context, string) (net.Conn, error) { return cconn, nil }
+			ct, err := NewHTTP2Client(ctx, ctx, resolver.Address{Addr: "verif"}, ConnectOptions{Dialer: dial, BufferPool: mem.DefaultBufferPool(), StaticWindowSize: static}, func(GoAwayInfo) {})
+			if err != nil {
+				res.engine = "NewHTTP2Client: " + err.Error()
+				peer.Close()
+				return
+			}
+			tr = ct.(*http2Client)
+			trfc = tr.fc
+			closeTr = func() { tr.Close(errors.New("verif: history finished")) }
 		}
-		tr := ct.(*http2Client)
 		var reads []*c04ReadOp
 		// asynchronous NewStream for B (quota scenario)
 		var newB struct {
@@ -145,7 +203,7 @@ func c04WireRun(t *testing.T, mode string, evs []c04Ev) (res c04WireRes) {
 		}
 		defer func() {
 			res.log = peer.LogString()
-			tr.Close(errors.New("verif: history finished"))
+			closeTr()
 			peer.Close()
 			synctest.Wait()
 			for _, ro := range reads {
@@ -163,25 +221,43 @@ func c04WireRun(t *testing.T, mode string, evs []c04Ev) (res c04WireRes) {
 		}()
 		var strs [2]*ClientStream
 		respHdr := [][2]string{{":status", "200"}, {"content-type", "application/grpc"}}
-		synctest.Wait() // the server's SETTINGS (stream quota) are applied
-		for i := range strs {
-			if quota && i == 1 {
-				break // B is created by the newB event
+		synctest.Wait() // the peer's SETTINGS (stream quota) are applied
+		if server {
+			reqHdr := [][2]string{{":method", "POST"}, {":scheme", "http"}, {":path", "/s/m"}, {":authority", "verif"}, {"content-type", "application/grpc"}, {"te", "trailers"}}
+			for _, id := range []uint32{1, 3} {
+				peer.WriteHeaders(id, reqHdr, false)
+				synctest.Wait()
 			}
-			s, err := tr.NewStream(ctx, &CallHdr{Host: "verif", Method: "/s/m"}, nil)
-			if err != nil {
-				res.engine = "NewStream: " + err.Error()
+			srvMu.Lock()
+			if len(srvStrs) != 2 || srvStrs[0].id != 1 || srvStrs[1].id != 3 {
+				res.engine = fmt.Sprintf("server side: expected streams 1 and 3, got %d", len(srvStrs))
+				srvMu.Unlock()
 				return
 			}
-			strs[i] = s
-		}
-		synctest.Wait()
-		for _, s := range strs {
-			if s != nil {
-				peer.WriteHeaders(s.id, respHdr, false)
+			for i, ss := range srvStrs {
+				gs[i], as[i] = &ss.Stream, ss
 			}
+			srvMu.Unlock()
+		} else {
+			for i := range strs {
+				if quota && i == 1 {
+					break // B is created by the newB event
+				}
+				s, err := tr.NewStream(ctx, &CallHdr{Host: "verif", Method: "/s/m"}, nil)
+				if err != nil {
+					res.engine = "NewStream: " + err.Error()
+					return
+				}
+				strs[i], gs[i], as[i] = s, &s.Stream, s
+			}
+			synctest.Wait()
+			for _, s := range strs {
+				if s != nil {
+					peer.WriteHeaders(s.id, respHdr, false)
+				}
+			}
+			synctest.Wait()
 		}
-		synctest.Wait()
 
 		// ---- ledger (peer side) ----
 		iws := int64(c04WL)
@@ -191,9 +267,9 @@ func c04WireRun(t *testing.T, mode string, evs []c04Ev) (res c04WireRes) {
 		goaway := false
 		var pings [][8]byte
 		seen := 0
-		idx := map[uint32]int{strs[0].id: 0}
-		if strs[1] != nil {
-			idx[strs[1].id] = 1
+		idx := map[uint32]int{gs[0].id: 0}
+		if gs[1] != nil {
+			idx[gs[1].id] = 1
 		}
 		var bID uint32 // quota scenario: B's stream id once its HEADERS reached the peer
 		bAnswered := false
@@ -260,7 +336,7 @@ func c04WireRun(t *testing.T, mode string, evs []c04Ev) (res c04WireRes) {
 			if quota {
 				newB.mu.Lock()
 				if newB.done && newB.err == nil && strs[1] == nil {
-					strs[1] = newB.s
+					strs[1], gs[1], as[1] = newB.s, &newB.s.Stream, newB.s
 				}
 				newB.mu.Unlock()
 				if bID != 0 && !bAnswered && strs[1] != nil {
@@ -281,10 +357,10 @@ func c04WireRun(t *testing.T, mode string, evs []c04Ev) (res c04WireRes) {
 			if lo := iws - c04Slack(iws); Wc < lo {
 				fail("conn-window-not-restored", "after %s: the peer's connection window is %d < %d (configured %d)", after, Wc, lo, iws)
 			}
-			if got := int64(tr.fc.limit) - int64(tr.fc.unacked); got != Wc {
+			if got := int64(trfc.limit) - int64(trfc.unacked); got != Wc {
 				fail("conn-ledger-mismatch", "after %s: wire ledger Wc=%d but trInFlow limit-unacked=%d", after, Wc, got)
 			}
-			for i, s := range strs {
+			for i, s := range gs {
 				if dead[i] || s == nil || (i == 1 && quota && !bAnswered) {
 					continue
 				}
@@ -300,7 +376,11 @@ func c04WireRun(t *testing.T, mode string, evs []c04Ev) (res c04WireRes) {
 				s.fc.mu.Lock()
 				got := int64(s.fc.limit) + int64(s.fc.delta) - int64(s.fc.pendingData) - int64(s.fc.pendingUpdate)
 				fl := fmt.Sprintf("limit=%d delta=%d pendingData=%d pendingUpdate=%d", s.fc.limit, s.fc.delta, s.fc.pendingData, s.fc.pendingUpdate)
+				pd := int64(s.fc.pendingData)
 				s.fc.mu.Unlock()
+				if pd != avail[i] {
+					fail("pending-data-mismatch", "after %s: stream %s: %d payload bytes are delivered and not yet consumed by the application, but inFlow.pendingData=%d (flow-controlled bytes that are neither held for the application nor scheduled for return: %d) (%s)", after, nm, avail[i], pd, pd-avail[i], fl)
+				}
 				if got != W[i] {
 					fail("ledger-mismatch", "after %s: stream %s wire ledger W=%d but limit+delta-pendingData-pendingUpdate=%d (%s)", after, nm, W[i], got, fl)
 				}
@@ -346,7 +426,7 @@ func c04WireRun(t *testing.T, mode string, evs []c04Ev) (res c04WireRes) {
 		for i := range payload {
 			payload[i] = byte(i)
 		}
-		padding := make([]byte, 8)
+		padding := make([]byte, 255)
 
 		for ei, ev := range evs {
 			hard := false
@@ -396,7 +476,7 @@ func c04WireRun(t *testing.T, mode string, evs []c04Ev) (res c04WireRes) {
 				synctest.Wait()
 				check(ev.name)
 			case "data":
-				if dead[i] || strs[i] == nil || (i == 1 && quota && !bAnswered) {
+				if dead[i] || gs[i] == nil || (i == 1 && quota && !bAnswered) {
 					res.skipAt = ei
 					return
 				}
@@ -433,12 +513,12 @@ func c04WireRun(t *testing.T, mode string, evs []c04Ev) (res c04WireRes) {
 						return
 					}
 					if overhead > 0 {
-						peer.WriteDataPadded(strs[i].id, false, payload[:chunk], padding[:ev.pad])
+						peer.WriteDataPadded(gs[i].id, false, payload[:chunk], padding[:ev.pad])
 						if reqRem[i] > 0 {
 							padSinceReq[i] = true
 						}
 					} else {
-						peer.WriteData(strs[i].id, false, payload[:chunk])
+						peer.WriteData(gs[i].id, false, payload[:chunk])
 					}
 					W[i] -= flen
 					Wc -= flen
@@ -480,7 +560,7 @@ func c04WireRun(t *testing.T, mode string, evs []c04Ev) (res c04WireRes) {
 					check(ev.name + "+pingack")
 				}
 			case "read", "hdr":
-				if dead[i] || cur[i] != nil || strs[i] == nil || (i == 1 && quota && !bAnswered) {
+				if dead[i] || cur[i] != nil || gs[i] == nil || (i == 1 && quota && !bAnswered) {
 					res.skipAt = ei
 					return
 				}
@@ -489,7 +569,7 @@ func c04WireRun(t *testing.T, mode string, evs []c04Ev) (res c04WireRes) {
 				cur[i] = ro
 				reqRem[i] = int64(ev.n)
 				padSinceReq[i] = false
-				s, n, hdr := strs[i], ev.n, ev.kind == "hdr"
+				s, n, hdr := as[i], ev.n, ev.kind == "hdr"
 				go func() {
 					var got int
 					var err error
@@ -547,7 +627,7 @@ func TestVerif_C04_Wire(t *testing.T) {
 	defer r.Finish()
 	alpha := c04WireAlphabet()
 	depth := r.Pick(4, 5)
-	r.Rule(P, fmt.Sprintf("every event sequence of length %d (checked after every frame, so all shorter sequences are covered as prefixes) over %d events {DATA on stream A in 7 sizes around the 65535 window, 4 padded variants, DATA on stream B, Read/ReadMessageHeader of 5 sizes on A and 2 on B}, once with a static window and once with the live BDP estimator (peer acks the BDP ping after each DATA burst at zero virtual RTT), on a real http2Client against a scripted raw server; plus scenario bdp-quota (server MAX_CONCURRENT_STREAMS=1; events newB [NewStream parks on stream quota], closeA, dataA(L) [BDP raise], readA(3L), dataB(1 | advertised window | window+1), readB(1); length %d): a stream registered after a window raise must honour the window the peer was told; non-trivial = history in which the client emitted a WINDOW_UPDATE or rejected an overrun", depth, len(alpha), r.Pick(5, 7)))
+	r.Rule(P, fmt.Sprintf("every event sequence of length %d (checked after every frame, so all shorter sequences are covered as prefixes) over %d events {DATA on stream A in 7 sizes around the 65535 window, 4 padded variants, DATA on stream B, Read/ReadMessageHeader of 5 sizes on A and 2 on B}, once with a static window and once with the live BDP estimator (peer acks the BDP ping after each DATA burst at zero virtual RTT), on a real http2Client against a scripted raw server; plus scenario bdp-quota (server MAX_CONCURRENT_STREAMS=1; events newB [NewStream parks on stream quota], closeA, dataA(L) [BDP raise], readA(3L), dataB(1 | advertised window | window+1), readB(1); length %d): a stream registered after a window raise must honour the window the peer was told; plus padding scenarios pad-static/pad-bdp (client) and server-pad-static/server-pad-bdp (real http2Server vs scripted raw client): PADDED DATA pad {0,1,255} x payload {0,1,16000}, unpadded DATA(1), reads 1/5/16000/65535, length 3 quick / 4 thorough, and the main menu against the server (server-static/server-bdp) one event shorter; inFlow.pendingData must equal delivered-and-unconsumed payload after every frame; non-trivial = history in which the receiver emitted a WINDOW_UPDATE or rejected an overrun", depth, len(alpha), r.Pick(5, 7)))
 	r.Assume(P, "the scripted peer learns window updates at quiescence (synctest.Wait after every frame), so 'conforming' is judged per DATA frame against every update the client had emitted by then")
 	r.Assume(P, "connection-level overruns are outside the domain (grpc-go does not police the connection window; the menu cannot produce one because the client replenishes it independently of reads)")
 	byName := map[string]c04Ev{}
@@ -556,6 +636,10 @@ func TestVerif_C04_Wire(t *testing.T) {
 	}
 	qalpha := c04QuotaAlphabet()
 	for _, e := range qalpha {
+		byName[e.name] = e
+	}
+	palpha := c04PadAlphabet()
+	for _, e := range palpha {
 		byName[e.name] = e
 	}
 	byName["readA(2147483647)"] = c04Ev{name: "readA(2147483647)", kind: "read", s: 0, n: 1<<31 - 1}
@@ -604,7 +688,12 @@ func TestVerif_C04_Wire(t *testing.T) {
 		alpha []c04Ev
 		depth int
 	}
-	for _, sc := range []wireScenario{{"static", alpha, depth}, {"bdp", alpha, depth}, {"bdp-quota", qalpha, r.Pick(5, 7)}} {
+	pd := r.Pick(3, 4)
+	for _, sc := range []wireScenario{{"static", alpha, depth}, {"bdp", alpha, depth}, {"bdp-quota", qalpha, r.Pick(5, 7)},
+		// padding accounting, both receivers (client and server handleData)
+		{"pad-static", palpha, pd}, {"pad-bdp", palpha, pd}, {"server-pad-static", palpha, pd}, {"server-pad-bdp", palpha, pd},
+		// the main menu against the server transport
+		{"server-static", alpha, depth - 1}, {"server-bdp", alpha, depth - 1}} {
 		mode, alpha, depth := sc.mode, sc.alpha, sc.depth
 		bad := map[string]bool{} // inapplicable prefixes (as index strings)
 		od := make([]int, depth)
